@@ -1121,3 +1121,8 @@ def rules(chk: Check) -> None:
     chk.stage(own_jouguet_velocity, chk, "R03.9")
     from .shared import per_object_state
     chk.stage(per_object_state, chk, "R03.9", ("Hydrodynamics", "HydrodynamicsTemplateModel", "Thermodynamics", "FreeEnergy", "InterpolatableFunction"))
+    # R03.10: the refined end of the v+ bracket (and every other root-finder result held in a local) is read afterwards -- a result written to a
+    # name nobody reads leaves the search on the stale bracket and falls back to the template silently; tiny offsets of bracket ends point inward
+    from .shared import solver_results_consumed, bracket_offsets_inward
+    chk.stage(solver_results_consumed, chk, "R03.10", ("hydrodynamics", "hydrodynamicsTemplateModel"), 25)
+    chk.stage(bracket_offsets_inward, chk, "R03.10", ("hydrodynamics", "hydrodynamicsTemplateModel"), 4)
